@@ -83,6 +83,77 @@ pub fn gen_v6(t: &mut Tape) -> [u16; 8] {
     g
 }
 
+/// Source and destination of one connection. Mostly two independent draws; one time in five the two are RELATED the way
+/// real endpoints are: the same address, a shared prefix of 1..=7 groups, or both inside one scoped range (link-local
+/// fe80::/10, site-local, multicast ff0x) with the same KAME-style embedded zone index in the second group.
+pub fn gen_v6_pair(t: &mut Tape) -> ([u16; 8], [u16; 8]) {
+    let a = gen_v6(t);
+    if !t.chance(1, 5) {
+        return (a, gen_v6(t));
+    }
+    match t.below(4) {
+        0 => (a, a),
+        1 => {
+            let k = 1 + t.below(7) as usize;
+            let mut b = a;
+            for g in b.iter_mut().skip(k) {
+                *g = if t.chance(1, 3) { 0 } else { t.u16() };
+            }
+            (a, b)
+        }
+        _ => {
+            let top = *t.pick(&[0xfe80u16, 0xfe80, 0xfe80, 0xfe81, 0xfebf, 0xfec0, 0xff02, 0xff01, 0xff12]);
+            let zone = match t.below(4) {
+                0 => 0,
+                1 => 1 + t.below(9) as u16,
+                _ => t.u16(),
+            };
+            let mut x = [top, zone, 0, 0, 0, 0, 0, 0];
+            let mut y = x;
+            if t.chance(1, 6) {
+                y[1] = t.u16();
+            }
+            for i in 4..8 {
+                x[i] = if t.chance(1, 4) { 0 } else { t.u16() };
+                y[i] = if t.chance(1, 4) { 0 } else { t.u16() };
+            }
+            if t.coin() {
+                x[7] = 1;
+                y[7] = 2;
+                for i in 4..7 {
+                    x[i] = 0;
+                    y[i] = 0;
+                }
+            }
+            (x, y)
+        }
+    }
+}
+
+/// IPv4 counterpart: independent, equal, same /24 or /16, or both in one special range (link-local 169.254/16, loopback,
+/// multicast, "this network", broadcast).
+pub fn gen_v4_pair(t: &mut Tape) -> ([u8; 4], [u8; 4]) {
+    let a = gen_v4(t);
+    if !t.chance(1, 5) {
+        return (a, gen_v4(t));
+    }
+    match t.below(4) {
+        0 => (a, a),
+        1 => {
+            let mut b = a;
+            b[3] = t.byte();
+            if t.coin() {
+                b[2] = t.byte();
+            }
+            (a, b)
+        }
+        _ => {
+            let top: [u8; 2] = *t.pick(&[[169, 254], [127, 0], [224, 0], [0, 0], [255, 255], [10, 0], [192, 168], [100, 64], [198, 18]]);
+            ([top[0], top[1], t.byte(), t.byte()], [top[0], top[1], t.byte(), t.byte()])
+        }
+    }
+}
+
 pub fn spell_v4(a: [u8; 4]) -> String {
     format!("{}.{}.{}.{}", a[0], a[1], a[2], a[3])
 }
@@ -556,16 +627,17 @@ pub fn gen_valid_parts(t: &mut Tape, ascii_only: bool) -> V1Parts {
     match t.weighted(&[3, 4, 3]) {
         0 => {
             p.proto = b"TCP4".to_vec();
+            let (a4, b4) = gen_v4_pair(t);
             p.fields = vec![
-                spell_v4(gen_v4(t)).into_bytes(),
-                spell_v4(gen_v4(t)).into_bytes(),
+                spell_v4(a4).into_bytes(),
+                spell_v4(b4).into_bytes(),
                 gen_port(t).to_string().into_bytes(),
                 gen_port(t).to_string().into_bytes(),
             ];
         }
         1 => {
             p.proto = b"TCP6".to_vec();
-            let (a, b) = (gen_v6(t), gen_v6(t));
+            let (a, b) = gen_v6_pair(t);
             let (pa, pb) = (gen_port(t), gen_port(t));
             let mut sa = spell_v6(a, t);
             let mut sb = spell_v6(b, t);
@@ -1105,15 +1177,17 @@ pub fn gen_addr_block(t: &mut Tape, fam: u8) -> Vec<u8> {
     match fam {
         0 => vec![],
         1 => {
-            let mut b = gen_v4(t).to_vec();
-            b.extend_from_slice(&gen_v4(t));
+            let (a4, b4) = gen_v4_pair(t);
+            let mut b = a4.to_vec();
+            b.extend_from_slice(&b4);
             b.extend_from_slice(&gen_port(t).to_be_bytes());
             b.extend_from_slice(&gen_port(t).to_be_bytes());
             b
         }
         2 => {
             let mut b = Vec::new();
-            for g in [gen_v6(t), gen_v6(t)] {
+            let (a6, b6) = gen_v6_pair(t);
+            for g in [a6, b6] {
                 for v in g {
                     b.extend_from_slice(&v.to_be_bytes());
                 }
@@ -1142,6 +1216,46 @@ pub fn gen_addr_block(t: &mut Tape, fam: u8) -> Vec<u8> {
     }
 }
 
+pub const KNOWN_UNREGISTERED_KINDS: [u8; 16] = [0xE0, 0xEA, 0xEE, 0xE1, 0xEF, 0xF0, 0xF7, 0xF8, 0xFF, 0x00, 0x06, 0x1F, 0x26, 0x2F, 0x31, 0xDF];
+
+/// One TLV nested `depth` levels deep: every level's value is (a 5-byte SSL-style prefix and) the next level's TLV. Read as a
+/// section it is a single item; anything that descends into values (a recursive formatter, a validator of sub-TLVs) sees
+/// `depth` levels. Built outermost-first in one pass. `room` bounds the encoded size; the outermost value stays <= 65535.
+pub fn deep_nested_tlv(t: &mut Tape, room: usize) -> Vec<u8> {
+    let ssl = t.coin();
+    let per = if ssl { 8 } else { 3 };
+    let kind = if ssl { 0x20u8 } else { *t.pick(&[0x20u8, 0x04, 0xEE, 0x30, 0x01, 0x21]) };
+    let leaf = t.usize_in(0, 6);
+    let room = room.min(65535 + 3);
+    if room < leaf + 3 + per {
+        return Vec::new();
+    }
+    let max_depth = (room - leaf - 3) / per;
+    let depth = match t.weighted(&[4, 3, 2, 2]) {
+        0 => t.usize_in(1, 4),
+        1 => t.usize_in(5, 64),
+        2 => t.usize_in(65, 2500),
+        _ => max_depth.saturating_sub(t.usize_in(0, 3)),
+    }
+    .clamp(1, max_depth);
+    let total = depth * per + 3 + leaf;
+    let mut out = Vec::with_capacity(total);
+    let mut remaining = total;
+    for _ in 0..depth {
+        out.push(kind);
+        out.extend_from_slice(&((remaining - 3) as u16).to_be_bytes());
+        if ssl {
+            out.extend_from_slice(&[0x01, 0, 0, 0, 0]);
+        }
+        remaining -= per;
+    }
+    out.push(if ssl { 0x22 } else { kind });
+    out.extend_from_slice(&(leaf as u16).to_be_bytes());
+    out.extend(fill(0x5eed, leaf));
+    debug_assert_eq!(out.len(), total);
+    out
+}
+
 /// A well-formed TLV list (type, value) with a total encoded size <= `room`.
 pub fn gen_tlv_list(t: &mut Tape, room: usize) -> Vec<(u8, Vec<u8>)> {
     let mut out = Vec::new();
@@ -1151,9 +1265,12 @@ pub fn gen_tlv_list(t: &mut Tape, room: usize) -> Vec<(u8, Vec<u8>)> {
         if used + 3 > room {
             break;
         }
-        let kind = match t.weighted(&[3, 2]) {
+        let kind = match t.weighted(&[6, 4, 1]) {
             0 => *t.pick(&[0x01u8, 0x02, 0x03, 0x04, 0x05, 0x20, 0x21, 0x22, 0x23, 0x24, 0x25, 0x30]),
-            _ => t.byte(),
+            1 => t.byte(),
+            // type codes with a meaning outside the registered table: the vendor codes in use (AWS 0xEA, Azure 0xEE,
+            // GCP 0xE0), and the edges of the custom / experimental / reserved ranges
+            _ => *t.pick(&KNOWN_UNREGISTERED_KINDS),
         };
         let max = room - used - 3;
         let want = match t.weighted(&[4, 4, 2, 1, 2, 1]) {
@@ -1200,7 +1317,27 @@ pub fn enc_tlv_list(list: &[(u8, Vec<u8>)]) -> Vec<u8> {
 
 /// TLV section bytes of one of the classes empty / well-formed / truncated / random.
 pub fn gen_tlv_section(t: &mut Tape, room: usize) -> (Vec<u8>, &'static str) {
-    match t.weighted(&[2, 5, 2, 2]) {
+    match t.weighted(&[4, 10, 4, 4, 1, 1]) {
+        4 => {
+            // a TLV nested many levels deep (alone, or behind / in front of ordinary items)
+            let mut s = if t.coin() { enc_tlv_list(&gen_tlv_list(t, room.min(200))) } else { vec![] };
+            let left = room - s.len();
+            s.extend(deep_nested_tlv(t, left));
+            (s, "tlv-deeply-nested")
+        }
+        5 => {
+            // a well-formed list in which one item's length is written little-endian (a host-order sender): the item then
+            // overruns the section, or swallows its successors, or - when both bytes are equal - is unchanged
+            let list = gen_tlv_list(t, room);
+            let mut s = enc_tlv_list(&list);
+            if !list.is_empty() {
+                // favour the last item (its little-endian reading then ends exactly at the end of the section)
+                let i = if t.chance(2, 3) { list.len() - 1 } else { t.below(list.len() as u32) as usize };
+                let off: usize = list[..i].iter().map(|(_, v)| 3 + v.len()).sum();
+                s.swap(off + 1, off + 2);
+            }
+            (s, "tlv-length-little-endian")
+        }
         0 => (vec![], "tlv-empty"),
         1 => (enc_tlv_list(&gen_tlv_list(t, room)), "tlv-wellformed"),
         2 => {
@@ -1257,7 +1394,9 @@ pub fn gen_v2_mutant(t: &mut Tape) -> (Vec<u8>, &'static str) {
                 out.extend_from_slice(&h);
                 (out, "shifted-right")
             } else {
-                let n = 1 + t.below(3) as usize;
+                // its first 1..=11 bytes missing (something in front of the parser consumed them: the signature begins
+                // with CR LF CR LF, which a line-oriented reader takes for two empty lines)
+                let n = if t.coin() { 1 + t.below(3) as usize } else { 1 + t.below(11) as usize };
                 (h[n.min(h.len())..].to_vec(), "shifted-left")
             }
         }
@@ -1268,10 +1407,12 @@ pub fn gen_v2_mutant(t: &mut Tape) -> (Vec<u8>, &'static str) {
                 let l = ((h[14] as usize) << 8) | h[15] as usize;
                 let fam = (h[13] >> 4) as usize & 3;
                 let need = NEED[fam];
-                let v = match t.below(6) {
+                let v = match t.below(8) {
                     0 | 1 => l.saturating_sub(need),
                     2 => l + 16,
                     3 => h.len(),
+                    // the right number in the wrong byte order (a host-order sender)
+                    6 | 7 => ((l & 0xff) << 8) | (l >> 8),
                     // exactly another family's block size (a dual-stack sender that labels the header with the listening
                     // socket's family but writes the peer's block)
                     _ => NEED[t.below(4) as usize],
@@ -1478,8 +1619,50 @@ pub fn gen_chain(t: &mut Tape, base: &dyn Fn(&mut Tape) -> Vec<u8>) -> crate::en
 }
 
 /// G-ANYBYTES: the union of all byte-level generators.
+/// The endpoints of a connection written the way people and other tools write them - `ip:port ip:port`,
+/// `[v6]:port [v6]:port`, `src=.. dst=..`, JSON, a v1 line without its keyword or without its protocol, fields in another
+/// order, other separators - with or without a line end. None of them is a PROXY header; a convenience that accepts one
+/// of them through one entry point only is what this class looks for.
+pub fn gen_other_notation(t: &mut Tape) -> Vec<u8> {
+    let v6 = t.coin();
+    let (a, b) = if v6 {
+        let (x, y) = gen_v6_pair(t);
+        (spell_v6_canonical(x), spell_v6_canonical(y))
+    } else {
+        let (x, y) = gen_v4_pair(t);
+        (spell_v4(x), spell_v4(y))
+    };
+    let (pa, pb) = (gen_port(t), gen_port(t));
+    let fam = if v6 { "TCP6" } else { "TCP4" };
+    let (ha, hb) = if v6 { (format!("[{}]", a), format!("[{}]", b)) } else { (a.clone(), b.clone()) };
+    let mut s = match t.below(16) {
+        0 | 1 => format!("{}:{} {}:{}", ha, pa, hb, pb),
+        2 => format!("{}:{} -> {}:{}", ha, pa, hb, pb),
+        3 => format!("{}:{},{}:{}", ha, pa, hb, pb),
+        4 => format!("{} {} {} {}", a, b, pa, pb),
+        5 => format!("{} {} {} {} {}", fam, a, b, pa, pb),
+        6 => format!("PROXY {} {} {} {}", a, b, pa, pb),
+        7 => format!("PROXY {} {}:{} {}:{}", fam, ha, pa, hb, pb),
+        8 => format!("src={} sport={} dst={} dport={}", a, pa, b, pb),
+        9 => format!("{{\"src\":\"{}\",\"dst\":\"{}\",\"sport\":{},\"dport\":{}}}", a, b, pa, pb),
+        10 => format!("PROXY {} {} {} {} {}", fam, a, pa, b, pb),
+        11 => format!("PROXY\t{}\t{}\t{}\t{}\t{}", fam, a, b, pa, pb),
+        12 => format!("PROXY,{},{},{},{},{}", fam, a, b, pa, pb),
+        13 => format!("{}/{} {}/{}", a, pa, b, pb),
+        14 => format!("PROXY {} {} {}", fam, ha, hb),
+        _ => format!("{}:{}", ha, pa),
+    };
+    match t.below(4) {
+        0 => {}
+        1 => s.push('\n'),
+        _ => s.push_str("\r\n"),
+    }
+    s.into_bytes()
+}
+
 pub fn gen_any_bytes(t: &mut Tape) -> (Vec<u8>, &'static str) {
-    match t.weighted(&[4, 6, 2, 2, 3, 3, 2]) {
+    match t.weighted(&[8, 12, 4, 4, 6, 6, 4, 1]) {
+        7 => (gen_other_notation(t), "other-notation"),
         0 => {
             let mut x = gen_valid_line(t, false);
             let (tr, _) = gen_trailer(t, false);
